@@ -1258,11 +1258,14 @@ pub fn run(ctx: &mut Ctx) {
     // primitives
     let kmax = 3;
     prim_fract_closed::<2>(ctx, 6, if quick { 5 } else { 10 });
-    prim_fract_closed::<3>(ctx, 6, if quick { kmax } else { 6 });
+    // odd bases: deep enough that the coarse log2 pre-filter of round_fract cannot decide the
+    // near-half fractions (B^k - 1)/2 (k >= 7 in base 3, >= 5 in base 5, >= 4 in base 7)
+    prim_fract_closed::<3>(ctx, 6, if quick { 8 } else { 9 });
+    prim_fract_closed::<5>(ctx, 6, if quick { 5 } else { 6 });
+    prim_fract_closed::<7>(ctx, 6, if quick { 4 } else { 5 });
     prim_fract_closed::<10>(ctx, 6, if quick { kmax } else { 4 });
     prim_fract_closed::<16>(ctx, 6, kmax);
     if !quick {
-        prim_fract_closed::<7>(ctx, 6, 4);
         prim_fract_closed::<36>(ctx, 6, 3);
     }
     prim_fract_shape::<2>(ctx);
